@@ -70,6 +70,10 @@ pub fn programs() -> Vec<Prog> {
         // every binding, so the error is reported whatever the order
         p("ctl-rule-projection-erring+succeeding-binding-same-head", vec![], "score(\"alice\", 0); score(\"alice\", 50); score(\"bob\", 10); eligible($u) <- score($u, $n), 100 / $n >= 1; allow if true;", vec!["q($u) <- eligible($u)"]),
         p("ctl-query-projection-erring+succeeding-binding-same-head", vec![], "score(\"alice\", 0); score(\"alice\", 50); allow if true;", vec!["q($u) <- score($u, $n), 100 / $n >= 1"]),
+        // rules and queries whose head has no variable: every binding is still evaluated (an erring one is reported
+        // whatever the order) and the fact is derived under the origin of every binding
+        p("ctl-constant-head-rule-erring+succeeding-binding", vec![], "n(0); n(1); ok(true) <- n($x), 10 / $x > 0; allow if true;", vec!["q(true) <- n($x), 10 / $x > 0"]),
+        p("ctl-constant-head-rule-two-origins", vec!["n(1);", "n(2); check if ok(true) trusting previous;"], "ok(true) <- n($x) trusting previous; check if ok(true); allow if ok(true) trusting previous; deny if true;", vec!["q(true) <- ok(true) trusting previous", "q($x) <- n($x) trusting previous"]),
         p("ctl-same-fact-authorizer-and-authority", vec!["user(\"alice\"); member($u) <- user($u);"], "user(\"alice\"); member($u) <- user($u); check if member(\"alice\"); allow if true;", vec!["q($u) <- member($u)", "q($u) <- member($u) trusting previous"]),
         // derivation chains that cross rule groups (one group per trusted-origin set): the number of fixpoint
         // iterations, and with it what a tight iteration budget allows, must not depend on the group order
